@@ -132,23 +132,26 @@ def cases(block):
                         yield {"grid": g, "drops": drops, "rule": rule, "intensity": "standard", "classes": ["interior"], "bigsmall": True}
     elif k in ("polar", "sph"):
         dim = 2 if k == "polar" else 3
-        for n, Ro in ((24, 24.0), (32, 16.0)):
-            dr = Ro / n
+        for n, Ro, r0 in ((24, 24.0, 0.0), (32, 16.0, 0.0), (24, 26.0, 2.0), (28, 15.0, 1.0)):
+            dr = (Ro - r0) / n
             g = {"kind": k, "n": n, "R": Ro}
+            if r0:
+                g["r0"] = r0  # annular grid: the centred droplet covers the hole
             for Rf in (3.2, 4.5, 6.1 + ph):
                 for wf in (1.0, 1.5, 2.0):
                     for rule in RULES:
                         for it in (INTENS if rule == 0.5 else INTENS[:1] + INTENS[9:]):
-                            yield {"grid": g, "drops": [[[0.0] * dim, Rf * dr, wf * dr]], "rule": rule, "intensity": it, "classes": ["centred"]}
+                            yield {"grid": g, "drops": [[[0.0] * dim, r0 + Rf * dr, wf * dr]], "rule": rule, "intensity": it, "classes": ["centred"]}
     elif k == "cyl":
-        g = {"kind": "cyl", "shape": [12, 32], "R": 12.0, "z": [-4.0, 28.0], "periodic_z": block["pz"]}
+      for z0 in (-4.0, 2.0, -40.0):  # z ranges containing 0 and excluding it on either side
+        g = {"kind": "cyl", "shape": [12, 32], "R": 12.0, "z": [z0, z0 + 32.0], "periodic_z": block["pz"]}
         for Rf in (3.2, 4.5):
             for wf in (1.0, 1.5):
                 for iz in (12, 16):
                     for off in OFFS:
                         for rule in RULES[:2]:
-                            for it in INTENS[:1] + INTENS[1:2] + INTENS[9:]:
-                                yield {"grid": g, "drops": [[[0.0, 0.0, -4.0 + (iz + off + ph) * 1.0], Rf, wf]], "rule": rule, "intensity": it, "classes": ["on-axis"]}
+                            for it in (INTENS[:1] + INTENS[1:2] + INTENS[9:] if z0 == -4.0 else INTENS[:1]):
+                                yield {"grid": g, "drops": [[[0.0, 0.0, z0 + (iz + off + ph) * 1.0], Rf, wf]], "rule": rule, "intensity": it, "classes": ["on-axis"]}
 
 
 def run_case(case, ctx):
@@ -208,6 +211,10 @@ def run_case(case, ctx):
         ctx.count("fitted-levels")
     if len(drops) == 2:
         ctx.count("two-droplets")
+    if g.get("r0"):
+        ctx.count("annular-grid")
+    if kind == "cyl" and not (g["z"][0] <= 0 <= g["z"][1]):
+        ctx.count("cylindrical-z-range-excluding-0")
     if case.get("bigsmall"):
         ctx.count("small-droplet-within-one-big-radius-of-big-surface")
     if kind == "cart" and len(set(g["shape"])) > 1 and any(cl in ("low", "outside") for cl in case["classes"]):
@@ -219,7 +226,7 @@ def run_case(case, ctx):
     order = list(range(len(drops)))
     if len(drops) == 2 and pd(em[0].position, drops[0][0]) > pd(em[0].position, drops[1][0]):
         order = [1, 0]
-    sc = min(g["dx"]) if kind == "cart" else (g["R"] / g["n"] if kind in ("polar", "sph") else 1.0)
+    sc = min(g["dx"]) if kind == "cart" else (geom.radial_spacing(g) if kind in ("polar", "sph") else 1.0)
     for k_, d in enumerate(em):
         c, R, w = drops[order[k_]]
         ctx.check("C05.class", type(d) is DiffuseDroplet, {"type": type(d).__name__}, tags)
@@ -234,4 +241,4 @@ def run_case(case, ctx):
 
 def expected_positive(tier):
     return ["C05.count", "C05.position", "C05.radius", "C05.width", "C05.inbox", "across-or-outside-periodic-boundary", "fitted-levels", "two-droplets",
-            "small-droplet-within-one-big-radius-of-big-surface", "straddling-on-non-square-box"]
+            "small-droplet-within-one-big-radius-of-big-surface", "straddling-on-non-square-box", "annular-grid", "cylindrical-z-range-excluding-0"]
